@@ -162,7 +162,7 @@ def gen_defs(rng, n):
         elif r == 14:
             # the checker rejects error unions whose sides "share autocasts": keep the groups apart
             e, p = pick(), pick()
-            if group(defs, e) != group(defs, p) and group(defs, e) != "other" :
+            if group(defs, e) != group(defs, p) and "other" not in (group(defs, e), group(defs, p)):
                 defs.append({"k": "eu", "e": e, "p": p})
             else:
                 defs.append({"k": "opt", "a": p})
@@ -182,7 +182,7 @@ def group(defs, i):
             return "ptr"
         if t == "rawslice":
             return "seq"
-        return t if t in ("str", "bool", "char") else "other"
+        return t if t in ("str", "bool", "char", "void") else "other"
     if k == "ptr":
         return "ptr"
     if k in ("arr", "slice"):
